@@ -25,6 +25,9 @@ Proof. vm_compute. reflexivity. Qed.
 Lemma gen_scrape_within : all_within the_prog entries_scrape fuel [] = true.
 Proof. vm_compute. reflexivity. Qed.
 
+Lemma gen_process_within : all_within the_prog entries_process fuel [] = true.
+Proof. vm_compute. reflexivity. Qed.
+
 Theorem gen_http : forall f c, In f entries_http -> raises the_prog f c -> matches the_prog c handled = true.
 Proof. exact (entries_within the_prog entries_http fuel handled gen_mro_closed gen_http_within). Qed.
 
@@ -36,6 +39,9 @@ Proof. exact (entries_within the_prog entries_robots fuel handled gen_mro_closed
 
 Theorem gen_scrape : forall f c, In f entries_scrape -> ~ raises the_prog f c.
 Proof. exact (entries_silent the_prog entries_scrape fuel gen_mro_closed gen_scrape_within). Qed.
+
+Theorem gen_process : forall f c, In f entries_process -> ~ raises the_prog f c.
+Proof. exact (entries_silent the_prog entries_process fuel gen_mro_closed gen_process_within). Qed.
 
 (* ---------- non-vacuity: the hypotheses [raises the_prog f c] are satisfiable ---------- *)
 (* every fetch entry point really has a raising execution in the semantics ... *)
@@ -56,5 +62,5 @@ Proof. apply (entries_live the_prog _ fuel). vm_compute. reflexivity. Qed.
 (* the entry points are defined functions of the summary (an undefined one would be "unknown") *)
 Lemma gen_entries_defined :
   forallb (fun f => match assoc f (funs the_prog) with Some _ => true | None => false end)
-          (entries_http ++ entries_ftp ++ entries_robots ++ entries_scrape) = true.
+          (entries_http ++ entries_ftp ++ entries_robots ++ entries_scrape ++ entries_process) = true.
 Proof. vm_compute. reflexivity. Qed.
